@@ -446,9 +446,17 @@ func (cl *c15Client) run(frame *int64) {
 		cl.mu.Unlock()
 	}
 	if open && os.Getenv("VERIF_C15_SS") != "" {
-		out, _ := exec.Command("ss", "-tnoi", "sport", "=", ":"+cl.local[strings.LastIndexByte(cl.local, ':')+1:], "or", "dport", "=", ":"+cl.local[strings.LastIndexByte(cl.local, ':')+1:]).CombinedOutput()
+		out, _ := exec.Command("ss", "-tnoi", "sport", "=", ":"+c15Port(cl.local), "or", "dport", "=", ":"+c15Port(cl.local)).CombinedOutput()
 		fmt.Fprintf(os.Stderr, "C15 open-idle %s %s bytes=%d\n%s\n%s\n", cl.plan.Kind, cl.plan.Mode, cl.size(), out, goroutineDump())
 	}
+}
+
+// c15Port: the client port of a srv.Key ("ip:port@serverport").
+func c15Port(key string) string {
+	if k := strings.IndexByte(key, '@'); k >= 0 {
+		key = key[:k]
+	}
+	return key[strings.LastIndexByte(key, ':')+1:]
 }
 
 // --- witnesses
@@ -738,7 +746,7 @@ func c15Run(c *fw.Ctx, i int) {
 				return
 			}
 			cl.conn = conn
-			cl.local = conn.LocalAddr().String()
+			cl.local = srv.Key(conn)
 			left, err := cl.handshake(s)
 			if err != nil {
 				cl.hsErr = err
@@ -764,7 +772,7 @@ func c15Run(c *fw.Ctx, i int) {
 				continue
 			}
 			for _, cl := range clients {
-				if cl.local != "" && e.Seq >= cl.from && e.RemoteAddr == cl.local && atomic.LoadInt64(&cl.stopFrame) < 0 {
+				if cl.local != "" && e.Seq >= cl.from && s.Notify.Match(e, cl.local) && atomic.LoadInt64(&cl.stopFrame) < 0 {
 					atomic.StoreInt64(&cl.stopFrame, f)
 				}
 			}
@@ -822,7 +830,7 @@ func c15Run(c *fw.Ctx, i int) {
 			continue
 		}
 		for _, cl := range clients {
-			if cl.local != "" && e.Seq >= cl.from && e.RemoteAddr == cl.local && atomic.LoadInt64(&cl.stopFrame) < 0 {
+			if cl.local != "" && e.Seq >= cl.from && s.Notify.Match(e, cl.local) && atomic.LoadInt64(&cl.stopFrame) < 0 {
 				atomic.StoreInt64(&cl.stopFrame, endFrame+1)
 			}
 		}
